@@ -11,6 +11,7 @@ import Librfn.Driver.Bintree
 import Librfn.Driver.PT
 import Librfn.Driver.HB
 import Librfn.Driver.Sched
+import Librfn.Driver.Isr
 
 def main (args : List String) : IO UInt32 :=
   match args with
@@ -27,4 +28,5 @@ def main (args : List String) : IO UInt32 :=
   | "pt" :: rest => Librfn.Driver.PT.main rest
   | "hb" :: rest => Librfn.Driver.HB.main rest
   | "sched" :: rest => Librfn.Driver.Sched.main rest
+  | "isr" :: rest => Librfn.Driver.Isr.main rest
   | _ => do IO.eprintln "usage: librfn_model <engine> [args]"; return 2
